@@ -9,6 +9,7 @@ DEFAULT = {
 }
 
 OVERRIDE = {
+    "C08": {"quick": dict(cases=1500, budget=50), "thorough": dict(cases=20000, budget=600, configs=["asan", "asan-i64"])},
     "C10": {"quick": dict(types="d", shards=16), "thorough": dict(types="d", shards=8, configs=["asan", "asan-i64"])},
 }
 
@@ -20,6 +21,9 @@ COMMON_NOTE = ("Trusted: the harness's dense long-double reference, the choice-s
                "Exploration only: the property is shown to hold on the generated cases (counts in the evidence file), nothing is proved.")
 
 INFO = {
+    "C08": dict(level="fault_enumeration", assumptions=COMMON_ASSUME + ["a run longer than 10 s (normal: < 1 ms) counts as a hang and is confirmed by three replays in fresh processes"], note=COMMON_NOTE + " Workspace lengths and allocation-failure positions are enumerated completely for the sampled problems; the problems themselves are generated.",
+                technique="property-based testing (rapidcheck) with an exhaustive inner enumeration of workspace lengths (every byte count, both alignments) and of allocation-failure positions, ASan-poisoned guard zones, fork isolation with a watchdog, differential against library allocation",
+                text="For each generated problem every exhaustion point is a distinct fault: all workspace lengths up to beyond the requirement and all failure positions among the factor-growth requests are enumerated; the outcome must be a reported shortage or factors bit-identical to library allocation."),
     "C07": dict(level="exploration", assumptions=COMMON_ASSUME + ["bit-for-bit comparison only between runs of the same code on the same input with the bundled (plain C) BLAS"], note=COMMON_NOTE,
                 technique="property-based testing (rapidcheck), differential: the same factorization under several fill estimates / library allocation / caller workspaces of different length and alignment must give bit-identical permutations and factors",
                 text="Each generated problem is factored 3..8 times with different ways of obtaining factor storage; digests of everything returned are compared bit for bit, memory usage and expansion counts against the ledger."),
@@ -69,7 +73,7 @@ INFO = {
 
 NOT_APPLICABLE = {}
 
-PROPS = ["C01", "C02", "C03", "C04", "C05", "C07", "C10", "C11", "C12", "C13", "C14", "C16", "C17", "C18", "C20"]
+PROPS = ["C01", "C02", "C03", "C04", "C05", "C07", "C08", "C10", "C11", "C12", "C13", "C14", "C16", "C17", "C18", "C20"]
 
 
 def all_props():
